@@ -188,6 +188,32 @@ def data_series(inst, table=None):
     return BlockSeries(data=table, shape=(nb, nb), n_infinite=k, name="Hdata"), table
 
 
+def blocklist_series(inst, inj):
+    """A lazily defined SCALAR series whose terms are nested block lists [[H_00, H_01], [H_10, H_11]]
+    (no subspace designation): the user callback returns the whole term, pre-blocked."""
+    from pymablock.series import BlockSeries, zero
+
+    k = inst["k"]
+    nb = len(inst["sizes"])
+    order = hermitian.block_order(inst)
+    offs = np.concatenate(([0], np.cumsum(inst["sizes"])))
+    idx = [order[offs[b]:offs[b + 1]] for b in range(nb)]
+    terms = {(0,) * k: hermitian.h0_user(inst), **inst["terms"]}
+    concrete = {}
+    for n, m in terms.items():
+        a = hermitian.to_numpy(m, force_complex=inst["vtype"] == "numpy_complex")
+        concrete[n] = a
+
+    def ev(*index):
+        inj.hit(("H", index))
+        a = concrete.get(tuple(index))
+        if a is None:
+            return zero
+        return [[np.array(a[np.ix_(idx[i], idx[j])]) for j in range(nb)] for i in range(nb)]
+
+    return BlockSeries(eval=ev, shape=(), n_infinite=k, name="Huser"), concrete
+
+
 def diag_solver(inst, inj):
     """A harness-supplied solve_sylvester(Y, index): second user callback."""
     from pymablock.series import zero
@@ -231,6 +257,8 @@ def build(inst, inj, *, custom_solver=False, poison=(), copies=None, shared=None
         H, concrete = user_series(inst, inj, poison=poison, symbolic=True)
     elif input_kind == "lazy_implicit":
         H, concrete = user_series(inst, inj, poison=poison, copies=copies)
+    elif input_kind == "lazy_blocklists":
+        H, concrete = blocklist_series(inst, inj)
     else:
         H, concrete = user_series(inst, inj, poison=poison, copies=copies)
     kw = {}
@@ -245,7 +273,7 @@ def build(inst, inj, *, custom_solver=False, poison=(), copies=None, shared=None
         eye = np.eye(d)
         kw["subspace_eigenvectors"] = [np.ascontiguousarray(eye[:, [i for i in range(d) if inst["sub_idx"][i] == b]])
                                        for b in range(nbk - 1)]
-    elif input_kind not in ("algebra", "data_series"):
+    elif input_kind not in ("algebra", "data_series", "lazy_blocklists"):
         kw["subspace_indices"] = list(inst["sub_idx"])
     with warnings.catch_warnings():
         warnings.simplefilter("ignore")
